@@ -124,7 +124,8 @@ func nearMisses(s string) []string {
 	return out
 }
 
-var c05Formats = []string{"2006-01-02T15:04:05.000Z", "2006-01-02T15:04:05.999Z07:00", "2006-01-02T15:04:05.000000000Z", "2006-01-02T15:04:05.000-07:00", "2006-01-02T15:04:05.000"}
+var c05Formats = []string{"2006-01-02T15:04:05.000Z", "2006-01-02T15:04:05.999Z07:00", "2006-01-02T15:04:05.000000000Z", "2006-01-02T15:04:05.000-07:00",
+	"2006-01-02T15:04:05.000", "2006-01-02T15:04:05.000", "2006-01-02T15:04:05"} // the last ones: no zone designator (UTC)
 
 func fmtInstant(r *rand.Rand, t time.Time) string {
 	f := pick(r, c05Formats)
@@ -399,7 +400,16 @@ func validateObs(idp *saml.IdentityProvider, sr *stubRegistry, r *http.Request) 
 
 var c05Session = &saml.Session{ID: "s1", NameID: "alice", UserName: "alice", Index: "idx1", CreateTime: time.Date(2015, 12, 1, 1, 0, 0, 0, time.UTC)}
 
+// process time zones: a designator-less IssueInstant is UTC whatever time.Local is
+var c05Zones = []*time.Location{time.UTC, time.UTC, time.FixedZone("EST", -5*3600), time.FixedZone("PST", -8*3600), time.FixedZone("", -11*3600),
+	time.FixedZone("IST", 5*3600+1800), time.FixedZone("", 2*3600), time.FixedZone("", 13*3600)}
+
 func c05One(c *Ctx, g *Group, cfg mCfg, reg []mRegEntry, now time.Time, w mWire, fr c05Framing, key map[string]string) {
+	zone := pick(c.Rng, c05Zones)
+	oldLocal := time.Local
+	time.Local = zone
+	defer func() { time.Local = oldLocal }()
+	key["process_zone"] = now.In(zone).Format("-07:00")
 	sr := &stubRegistry{entries: reg}
 	idp := newIDP(cfg, sr, c05Session)
 	var vterm string
@@ -514,6 +524,12 @@ func runC05(c *Ctx) {
 				-2 * time.Minute, -179 * time.Second, -180 * time.Second, -181 * time.Second, -15 * time.Minute, -15*time.Minute + time.Millisecond, -900 * time.Second, time.Minute, -365 * 24 * time.Hour} {
 				d := d
 				vary = append(vary, func(w *mWire) { w.Issue = sptr(now.Add(d).Format("2006-01-02T15:04:05.000Z")) })
+			}
+			for _, d := range []time.Duration{0, -89 * time.Second, -90 * time.Second, -91 * time.Second, -30 * time.Minute, -time.Hour, -5 * time.Hour, -8*time.Hour + time.Minute,
+				-11 * time.Hour, -13 * time.Hour, 2 * time.Hour, 5*time.Hour + 30*time.Minute} { // designator-less text, hours old / ahead
+				d := d
+				vary = append(vary, func(w *mWire) { w.Issue = sptr(now.Add(d).UTC().Format("2006-01-02T15:04:05.000")) },
+					func(w *mWire) { w.Issue = sptr(now.Add(d).UTC().Format("2006-01-02T15:04:05.000")) })
 			}
 			vary = append(vary, func(w *mWire) { w.Issue = nil }, func(w *mWire) { w.Issuer = nil }, func(w *mWire) { w.Issuer = sptr("") },
 				func(w *mWire) { w.Issuer = sptr("urn:gone") }, func(w *mWire) { w.Issuer = sptr("urn:broken") },
